@@ -9,6 +9,7 @@ import MosnVerif.Lemmas.DispatchLoop
 import MosnVerif.Model.DispatchCodec
 import MosnVerif.Lemmas.PoolRecover
 import MosnVerif.Lemmas.H2ReadLoop
+import MosnVerif.Model.DubboMeta
 /-!
 # C08 — malformed input is contained (property theorems only)
 
@@ -448,5 +449,53 @@ example : run cliPolicy (frameDec 16384 ⟨fun _ => .stream, fun _ => .ok⟩) 4 
 -- continue-after-connection-error burns all its fuel
 example : run { srvPolicy with againConn := true } (frameDec 7 okOrc) 50 ⟨h2Ping, 0⟩ = none := by decide
 end h2loop
+
+/-! ## dubbo service-aware metadata: every risky site of the hessian walk lies behind the deferred recover
+(sites and domination regenerated from the AST of getServiceAwareMeta: Gen/C08DubboMeta) -/
+section dubbometa
+open MosnVerif.Model.DubboMeta MosnVerif.Gen.C08DubboMeta
+
+/-- **dubbo_meta_sites_recovered**: getServiceAwareMeta has a deferred recover and EVERY unchecked type assertion,
+index / bounded slice expression and call of a function of the package in it is dominated by that defer statement
+(it is a direct statement of a block and the site lies in a later statement of the same block). -/
+theorem dubbo_meta_sites_recovered : recoverPresent = true ∧ ∀ s ∈ riskySites, s.2.2 = true := by decide
+
+/-- **dubbo_meta_walk_no_panic**: for EVERY sequence of decoded fields (string, nil, any other type, decode error at
+every position), every announced argument count, both kinds of listener: the walk ends in `ok` or a decode error —
+never in a panic that leaves the function. -/
+theorem dubbo_meta_walk_no_panic (aware : Bool) (f : Nat → Fld) (nargs : Nat) : walk aware f nargs ≠ .panic := by
+  have hk : ∀ (x : Fld) (b : Bool) (k : WOut), k ≠ .panic → needStr x b k ≠ .panic := by
+    intro x b k hk
+    cases x <;> cases b <;> simp [needStr, hk]
+  have hs : ∀ (n p : Nat) (k : WOut), k ≠ .panic → skipArgs f p n k ≠ .panic := by
+    intro n
+    induction n with
+    | zero => intro p k hk; simpa [skipArgs] using hk
+    | succ n ih =>
+      intro p k hk
+      unfold skipArgs
+      split
+      · simp
+      · exact ih _ _ hk
+  have ht : typesNonString ≠ .panic := by decide
+  unfold walk
+  refine hk _ _ _ (hk _ _ _ (hk _ _ _ (hk _ _ _ ?_)))
+  cases aware
+  · simp
+  · simp only [Bool.not_true, Bool.false_eq_true, if_false]
+    cases f 4
+    · apply hs; split <;> simp
+    · exact ht
+    · exact ht
+    · simp
+
+-- non-vacuity: an int where the argument-type descriptor is expected is an error on an aware listener and never looked
+-- at on another one; a missing version (nil) is accepted; two arguments are skipped whatever their type
+example : walk true (fun i => if i = 4 then .other else .str) 0 = .err ∧
+    walk false (fun i => if i = 4 then .other else .str) 0 = .ok := by decide
+example : walk true (fun i => if i = 2 then .null else if i = 5 ∨ i = 6 then .other else .str) 2 = .ok := by decide
+example : walk true (fun i => if i < 6 then .str else .derr) 2 = .err := by decide
+example : riskySites.length = 2 ∧ uncheckedStringAsserts = 1 := by decide
+end dubbometa
 
 end MosnVerif.Props.C08
